@@ -46,9 +46,11 @@ CLAIM = dict(
     "truths near the identity, all balance classes and all ordered pairs / triples of staged modes, from the identity and from "
     "non-identity start balances (warm starts), through the two-step path and the one-shot entry points; and that ColorCorrection on "
     "a non-affine camera response equals WhiteBalance (grey row) then Affine/ColorBalance (white-balanced colour rows).",
-    note="ColorCorrection with balancing='colour' (colour-science routines) is outside the model and the check; the final "
-    ".astype(float32) of correct_array is a per-value rounding that is not modelled (the exact tie uses float32-representable "
-    "values). optimiser contract is sampled, not proved; a tolerance miss is re-fitted once (find_balance restarts from the current "
+    note="ColorCorrection with balancing='colour' (colour-science routines) is outside C12's quantifier (swatch balances) and its "
+    "numerics are not modelled; only its dtype path is tabulated. The dtype path of correct_array is a G1 table regenerated on "
+    "every run (DarsiaGen.ColorDtypes: input dtype x active x balancing -> result dtype / exception class) with the obligations "
+    "color_dtype_float32 / color_dtype_rejects; the final .astype(float32) is a per-value rounding that is not modelled in Lean (the "
+    "exact tie uses float32-representable values) and is observed to equal numpy's float32 rounding of the float64 pipeline. optimiser contract is sampled, not proved; a tolerance miss is re-fitted once (find_balance restarts from the current "
     "balance) before it counts.",
     technique="Lean 4 proof of the composition algebra + exact differential correspondence with stubbed stage fits + property "
     "oracle with real Powell fits",
@@ -464,6 +466,14 @@ def corr_pipeline(ctx, d):
                 raise ValueError("colour stage was not handed the white-balanced colour rows swatches[:-1]")
             if out.dtype != np.float32 or out.shape != img.shape:
                 raise TypeError("dtype/shape")
+            # the final cast is the float32 rounding of the float64 pipeline result (observed against numpy)
+            A2 = np.array([[float(x) for x in r] for r in s2[1]])
+            b2 = np.array([float(x) for x in s2[2]]) if mode == "affine" else 0.0
+            exp64 = (img @ A1) @ A2 + b2
+            if clip:
+                exp64 = np.clip(exp64, 0, 1)
+            if not np.array_equal(out, exp64.astype(np.float32)):
+                raise ValueError("result is not the float32 rounding of the float64 pipeline")
             # every pixel of a swatch block must carry the same corrected colour
             blocks = out.reshape(4, scale, 6, scale, 3)
             if not np.array_equal(blocks, np.broadcast_to(blocks[:, :1, :, :1, :], blocks.shape)):
@@ -676,6 +686,58 @@ def check_order_case(d, case, cov=None):
     return []
 
 
+# ---------------------------------------------------------------------------- round 4: dtype path of ColorCorrection (G1 table)
+
+IN_DTYPES = ["uint8", "uint16", "float32", "float64", "int16", "int64", "bool"]
+LDT = {"uint8": "u8", "uint16": "u16", "float32": "f32", "float64": "f64", "int16": "i16", "int64": "i64", "bool": "b"}
+
+
+def tabulate_dtypes(d):
+    """run ColorCorrection.correct_array on the synthetic checker in every input dtype x {inactive, active} x
+    {balancing darsia (stage fits stubbed by the identity), balancing colour}: result dtype or exception class"""
+    import random
+
+    rng = random.Random(12)
+    sw, img64 = dyadic_checker(rng, 6)
+    n0, n1 = img64.shape[:2]
+    table = {}
+    for dt in IN_DTYPES:
+        if dt == "bool":
+            img = img64 > 0.5
+        elif dt.startswith("float"):
+            img = img64.astype(dt)
+        else:
+            img = (img64 * (np.iinfo(dt).max if dt.startswith("u") else 100)).astype(dt)
+        for active in (False, True):
+            for balancing in ("darsia", "colour"):
+                def run():
+                    cc = d.ColorCorrection(config={"roi": [[0, 0], [n0 - 1, 0], [n0 - 1, n1 - 1], [0, n1 - 1]], "active": active,
+                                                   "balancing": balancing, "colorbalancing": "linear", "whitebalancing": True})
+                    ident = [[Fr(int(a == b)) for b in range(3)] for a in range(3)]
+                    queue, log = [("diagonal", ident, [Fr(0)] * 3), ("linear", ident, [Fr(0)] * 3)], []
+                    with Stub(d, queue, log):
+                        out = cc.correct_array(img.copy())
+                    return str(np.asarray(out).dtype)
+
+                table[(dt, active, balancing)] = call(run)
+    return table
+
+
+def emit_dtypes(table):
+    L = ["import DarsiaModel.Basic", "namespace Darsia.Gen", "open Darsia", "",
+         "/-- numpy dtypes that occur as input / output of ColorCorrection.correct_array -/",
+         "inductive CDT | u8 | u16 | f32 | f64 | i16 | i64 | b", "  deriving DecidableEq, Repr", "",
+         "def CDT.all : List CDT := [.u8, .u16, .f32, .f64, .i16, .i64, .b]", "",
+         "/-- ColorCorrection.correct_array: input dtype, active flag, balancing = \"colour\"? ↦ result dtype or exception class;",
+         "tabulated from the running code (stage fits of the darsia branch stubbed by the identity) -/",
+         "def colorCorrectionDtype : CDT → Bool → Bool → Except Err CDT"]
+    for (dt, active, balancing), v in table.items():
+        rhs = f"(.error .{v.cls})" if isinstance(v, Raised) else (f"(.ok .{LDT[v]})" if v in LDT else "(.error .other)")
+        L.append(f"  | .{LDT[dt]}, {'true' if active else 'false'}, {'true' if balancing == 'colour' else 'false'} => {rhs}")
+    L += ["", "end Darsia.Gen"]
+    return "\n".join(L) + "\n"
+
+
 def report(ctx, bad, case):
     for sig, what in bad:
         ctx.fail(sig, what, {"case": case, "observed": what})
@@ -817,6 +879,9 @@ def run(ctx):
         case = json.loads(f.read_text()).get("replay", {}).get("case")
         if case:
             report(ctx, _dispatch(d, case), case)
+    table = tabulate_dtypes(d)
+    ctx.write_gen("ColorDtypes", emit_dtypes(table))
+    ctx.cov["dtype_table"] = {f"{k[0]},{'active' if k[1] else 'inactive'},{k[2]}": repr(v) if isinstance(v, Raised) else v for k, v in table.items()}
     ctx.prove("C12")
     corr_composition(ctx, d)
     corr_apply_and_objective(ctx, d)
